@@ -352,6 +352,7 @@ type lenFact struct {
 	exactSet bool
 	neq      int64 // len(x) != neq when neqSet
 	neqSet   bool
+	eqLenOf  ssa.Value // len(x) == len(eqLenOf)
 }
 
 // factsFromCond derives length facts from cond being true (pol) or false (!pol).
@@ -406,6 +407,10 @@ func (g *guardEngine) factsFromCond(cond ssa.Value, pol bool) []lenFact {
 			}
 		}
 		if x := lenArg(l); x != nil {
+			// len(x) == len(y)
+			if y := lenArg(r); y != nil && op == token.EQL {
+				return []lenFact{{x: x, eqLenOf: y}, {x: y, eqLenOf: x}}
+			}
 			if k, ok := constInt(r); ok {
 				switch op {
 				case token.EQL:
@@ -680,6 +685,12 @@ func (g *guardEngine) discharge(s guardSite) string {
 				}
 				if y != x && g.prefixOf(y, x, 0) {
 					return "index of a forward loop over a prefix of the same value"
+				}
+				// a loop over y after len(x) == len(y) was established
+				for _, f := range append(g.factsAt(s.ins.Block()), g.earlyExitFacts(s.ins.Block())...) {
+					if f.eqLenOf != nil && f.x != nil && (f.x == x || g.same(f.x, x)) && (f.eqLenOf == y || g.same(f.eqLenOf, y)) {
+						return "index of a forward loop over a slice whose length was checked to equal this one's"
+					}
 				}
 			}
 		}
